@@ -41,7 +41,12 @@ def run(ctx) -> None:
     # ---------------------------------------------------------------- R1
     FILESET = ("set(cfg.file_patterns.keys())", "set(cfg.file_patterns)")
     shapes.check_passthrough(ctx, "R1", upd.fq, "vcs.commit", {"filepaths": FILESET, "cfg": "cfg", "vcs_api": "vcs_api", "new_version": "new_version"})
-    shapes.check_passthrough(ctx, "R1", upd.fq, "vcs.assert_not_dirty", {"filepaths": FILESET})
+    dirty_callers = [fq for fq in sorted(effects.reachable_functions(["cli.update"])) if shapes.find_calls(prog, prog.function(fq), "vcs.assert_not_dirty")]
+    if not dirty_callers:
+        ctx.bad("R1", "cli.update: the dirty check is never called", "no call of vcs.assert_not_dirty is reachable from `bumpver update`", loc=upd.loc(),
+                what="update: dirty check covers the configured files")
+    for fq_ in dirty_callers:
+        shapes.check_passthrough(ctx, "R1", fq_, "vcs.assert_not_dirty", {"filepaths": FILESET})
     adds = shapes.find_calls(prog, vc, "vcs.VCSAPI.add")
     ctx.floor("R1", "add() call sites in vcs.commit", len(adds), 1)
     for c in adds:
